@@ -240,6 +240,62 @@ theorem deser_prefixed (e : CEnv) (hok : EnvOk e) (p l u : Str) (m : NsMap)
   have hsp' : ¬ ' ' ∈ l := ncName_not_mem e _ hl ' ' (space_not_ncChar e)
   simp [hu, hsp', hl]
 
+/-- surrounding XSD white space is irrelevant to `QNameConverter.deserialize` -/
+theorem qnameDeserialize_pad (e : CEnv) (pre post s : Str) (m : Option NsMap)
+    (hpre : AllXsdSpace pre) (hpost : AllXsdSpace post) (ht : Tight e.isSpace s) :
+    qnameDeserialize e (pre ++ s ++ post) m = qnameDeserialize e s m := by
+  have h1 : e.strip (pre ++ s ++ post) = s := strip_xsd_pad e.toEnv pre s post hpre hpost ht
+  have h2 : e.strip s = s := by rw [strip_eq_stripBy]; exact stripBy_tight _ _ ht
+  unfold qnameDeserialize qnameResolve
+  rw [h1, h2]
+
+theorem prefixed_tight (e : CEnv) (hok : EnvOk e) (p l : Str) (hp : GoodPrefix e p)
+    (hl : isNcName e l = true) : Tight e.isSpace (p ++ ':' :: l) := by
+  obtain ⟨a, r, rfl, hsp, _, _⟩ := hp
+  obtain ⟨hlne, hlall⟩ := ncName_chars e l hl
+  right
+  refine ⟨⟨a, r ++ ':' :: l, rfl, hsp⟩, ?_⟩
+  obtain ⟨r', z, hz⟩ := exists_last l hlne
+  exact ⟨(a :: r) ++ ':' :: r', z, by simp [hz], ncChar_not_space e hok z (hlall z (by simp [hz]))⟩
+
+/-! ### ASCII NCNames -/
+
+/-- NCNames written with ASCII letters, digits, `.`, `-`, `_` (and the middle dot) -/
+def isAsciiNcName (s : Str) : Bool :=
+  match s with
+  | [] => false
+  | c :: cs =>
+    (isAsciiAlpha c || c = '_') &&
+    cs.all (fun ch => isAsciiAlpha ch || isAsciiDigit ch || ch = '.' || ch = '-' || ch = '_')
+
+theorem punct_table :
+    46 ∈ Tables.ncnamePunctuation ∧ 45 ∈ Tables.ncnamePunctuation ∧ 95 ∈ Tables.ncnamePunctuation ∧
+    183 ∈ Tables.ncnamePunctuation := by decide
+
+theorem asciiAlpha_isAscii (c : Char) (h : isAsciiAlpha c = true) : isAscii c = true := by
+  simp [isAsciiAlpha, isAscii] at *
+  omega
+
+/-- `is_ncname` accepts every ASCII NCName, in every Unicode environment -/
+theorem isNcName_of_ascii (e : CEnv) (s : Str) (h : isAsciiNcName s = true) : isNcName e s = true := by
+  cases s with
+  | nil => simp [isAsciiNcName] at h
+  | cons c cs =>
+    simp only [isAsciiNcName, Bool.and_eq_true, Bool.or_eq_true, decide_eq_true_eq, List.all_eq_true] at h
+    simp only [isNcName, Bool.and_eq_true, Bool.or_eq_true, decide_eq_true_eq, List.all_eq_true]
+    obtain ⟨p46, p45, p95, _⟩ := punct_table
+    refine ⟨?_, ?_⟩
+    · rcases h.1 with h1 | h1
+      · left; simp [CEnv.isAlpha, asciiAlpha_isAscii c h1, h1]
+      · right; exact h1
+    · intro ch hch
+      rcases h.2 ch hch with (((h1 | h1) | h1) | h1) | h1
+      · left; left; simp [CEnv.isAlpha, asciiAlpha_isAscii ch h1, h1]
+      · left; right; simp [Env.isDigit, digit_isAscii ch h1, h1]
+      · right; subst h1; simpa using p46
+      · right; subst h1; simpa using p45
+      · right; subst h1; simpa using p95
+
 /-! ### generated prefixes -/
 
 def goodPrefixB (p : Str) : Bool :=
